@@ -19,7 +19,7 @@ NOPANIC = re.compile(
     r"|core::str::traits::<impl core::cmp::PartialEq for str>::(eq|ne)|core::str::<impl str>::(len|is_empty|as_bytes)|core::str::(converts::)?from_utf8"
     r"|<alloc::string::String as core::cmp::PartialEq<&str>>::eq|<alloc::string::String as core::cmp::PartialEq<str>>::eq|<alloc::string::String as core::cmp::PartialEq>::eq"
     r"|core::num::<impl usize>::(overflowing_|checked_|saturating_|wrapping_)\w+"
-    r"|alloc::vec::Vec::<T, A>::(len|is_empty|capacity|as_slice)|alloc::vec::Vec::<T>::new|core::slice::<impl \[T\]>::(len|is_empty)"
+    r"|alloc::vec::Vec::<T, A>::(len|is_empty|capacity|as_slice|push|clear|truncate|pop|as_mut_slice)|alloc::vec::Vec::<T>::new|core::slice::<impl \[T\]>::(len|is_empty)"
     r"|core::fmt::Formatter::<'a>::write_str|core::fmt::Arguments::<'a>::\w+|core::marker::PhantomData.*"
     r"|core::mem::(size_of|align_of|swap|replace|take|drop|forget|needs_drop)|core::cmp::(min|max)|core::cmp::Ord::(min|max|cmp)"
     r"|core::cmp::PartialEq::(eq|ne)|core::cmp::PartialOrd::(lt|le|gt|ge|partial_cmp)|core::convert::(From|Into)::(from|into)|core::clone::Clone::clone|core::default::Default::default"
@@ -28,6 +28,67 @@ NOPANIC = re.compile(
 
 def _lits(e):
     return [const_str(x) for x in walk(e) if const_str(x) is not None]
+
+
+def _div_guarded(b, bi, tt):
+    """a DivisionByZero / RemainderByZero assertion whose divisor is the very value a dominating `match v { 0 => .., _ => .. }`
+    (or `if v == 0` / `v != 0`) has excluded on the way here"""
+    if not str(tt.get("kind", "")).startswith(("DivisionByZero", "RemainderByZero")):
+        return False
+    d = Dfx(b)
+    # the divisor: the `Eq(divisor, 0)` feeding the assert condition
+    divisor = None
+    c = strip(d.expr(tt["cond"])) if tt.get("cond") else None
+    for x in (walk(c) if c else ()):
+        if isinstance(x, tuple) and x[0] == "bin" and x[1] == "Eq" and const_usize(strip(x[3])) == 0:
+            divisor = strip(x[2])
+    if divisor is None:
+        return False
+    dom = b.dominators()
+    for sb in dom.get(bi, set()):
+        t = b.blocks[sb]["term"]
+        if sb == bi or not t or t["k"] != "switch":
+            continue
+        tm = [(int(a_), b2) for a_, b2 in t["targets"]]
+        e = strip(d.expr(t["discr"]))
+        if e == divisor and any(v == 0 for v, _ in tm):
+            zero_tgt = [b2 for v, b2 in tm if v == 0][0]
+            if zero_tgt != bi and zero_tgt not in dom.get(bi, set()) and (t["otherwise"] == bi or t["otherwise"] in dom.get(bi, set())):
+                return True
+        if e[0] == "bin" and e[1] in ("Eq", "Ne") and strip(e[2]) == divisor and const_usize(strip(e[3])) == 0:
+            truth_zero = e[1] == "Eq"
+            tgt_true = t["otherwise"] if any(v == 0 for v, _ in tm) else dict(tm).get(1)
+            tgt_false = dict(tm).get(0, t["otherwise"])
+            nz_tgt = tgt_false if truth_zero else tgt_true
+            if nz_tgt is not None and (nz_tgt == bi or nz_tgt in dom.get(bi, set())):
+                return True
+    return False
+
+
+def _bounded_amount(f, b, e, depth=0):
+    """the expression is bounded by a constant-derived cap whatever the document says: `x.min(K)`, `min(x, K / size)`, a constant,
+    or a crate helper all of whose results are such"""
+    e = strip(e)
+    if const_usize(e) is not None or e[0] == "const":
+        return True
+    if e[0] == "bin" and str(e[1]).startswith(("Div", "Shr", "Rem")):
+        return _bounded_amount(f, b, e[2], depth + 1)
+    if e[0] == "call" and e[2] in ("min",) and len(e[3]) == 2:
+        return any(_bounded_amount(f, b, a, depth + 1) for a in e[3])
+    if e[0] == "call" and depth < 2 and len(e) > 4 and isinstance(e[4], dict):
+        cb = f.crate_fn_for_call(e[4])
+        if cb is not None and cb.kind != "Closure" and cb.blocks:
+            hd = Dfx(cb)
+            rets = [strip(hd.rvalue(st["rv"])) for _, _, st in cb.stmts() if st["k"] == "assign" and st["p"]["local"] == 0 and not st["p"]["proj"]]
+            rets += [strip(hd.expr({"k": "copy", "p": t_["dest"]})) for _, t_, fn_ in cb.calls() if t_.get("dest") and t_["dest"]["local"] == 0 and not t_["dest"]["proj"] and False]
+            call_rets = [(t_, fn_) for _, t_, fn_ in cb.calls() if t_.get("dest") and t_["dest"]["local"] == 0 and not t_["dest"]["proj"]]
+            ok = bool(rets) or bool(call_rets)
+            for r_ in rets:
+                ok = ok and _bounded_amount(f, cb, r_, depth + 1)
+            for t_, fn_ in call_rets:
+                ok = ok and fn_ is not None and fn_["name"] == "min" and any(_bounded_amount(f, cb, hd.expr(a_), depth + 1) for a_ in t_["args"])
+            return ok
+    return False
 
 
 def r_serde(f):
@@ -55,6 +116,12 @@ def r_serde(f):
             for x in walk(v):
                 if x[0] == "field" and strip(x[1]) in (("deref", ("param", 1)), ("param", 1)):
                     fld = field_names[x[2]] if x[2] < len(field_names) else None
+            if fld is None:
+                # hand-written: the field read through the crate's getter of the same name (`self.data()`, `&self.num_rows()`)
+                for x in walk(v):
+                    if x[0] == "call" and x[2] in field_names and len(x) > 4 and isinstance(x[4], dict) and (x[4].get("krate") == f.raw["crate"] or x[4].get("resolved_krate") == f.raw["crate"]) \
+                            and x[3] and any(y in (("param", 1), ("deref", ("param", 1))) for y in walk(x[3][0])):
+                        fld = x[2]
             pairs.append((lit, fld))
     n += 1
     ok = len(pairs) == len(field_names) and all(a == b2 for a, b2 in pairs) and {a for a, _ in pairs} == want
@@ -463,6 +530,8 @@ def r_serde(f):
                 bad.append((b, t2, "indirect call"))
                 continue
             path2 = fn2.get("resolved") or fn2["path"]
+            if fn2["name"] == "with_capacity" and fn2["path"].startswith("alloc::vec::Vec::<T>::") and t2["args"] and _bounded_amount(f, b, Dfx(b).expr(t2["args"][0])):
+                continue          # an initial capacity capped by `min(.., constant / size)`: a hint, not the document's claim
             if PANICKING.match(path2) or PANICKING.match(fn2["path"]):
                 bad.append((b, t2, fn2["path"]))
                 continue
@@ -474,7 +543,7 @@ def r_serde(f):
                     continue      # the asserting constructor is handled through its classified preconditions below
                 # any other crate function: must itself be free of panics (one level)
                 inner = [fn3["path"] for _, _, fn3 in cb2.calls() if fn3 and (PANICKING.match(fn3["path"]) or not (NOPANIC.match(fn3.get("resolved") or fn3["path"]) or NOPANIC.match(fn3["path"]) or is_caller_code(fn3) or f.crate_fn_for_call(fn3) is not None))]
-                asserts = [tt for bl in cb2.blocks for tt in [bl["term"]] if tt and tt["k"] == "assert" and not bl["cleanup"] and not tt["kind"].startswith("Overflow")]
+                asserts = [tt for bi3, bl in enumerate(cb2.blocks) for tt in [bl["term"]] if tt and tt["k"] == "assert" and not bl["cleanup"] and not tt["kind"].startswith("Overflow") and not _div_guarded(cb2, bi3, tt)]
                 if inner or asserts:
                     bad.append((b, t2, "%s (which can panic: %s)" % (norm_ty(cb2.id), (inner + ["assert"])[:2])))
                 continue
@@ -483,7 +552,7 @@ def r_serde(f):
             bad.append((b, t2, "may-panic callee " + norm_ty(path2)))
         for bi2, bl in enumerate(b.blocks):
             tt = bl["term"]
-            if tt and tt["k"] == "assert" and not bl["cleanup"] and not tt["kind"].startswith("Overflow"):
+            if tt and tt["k"] == "assert" and not bl["cleanup"] and not tt["kind"].startswith("Overflow") and not _div_guarded(b, bi2, tt):
                 bad.append((b, tt, "assert " + tt["kind"]))
     n += 1
     R.inst(vm.ident, "t4 the reader's own code (%d bodies, %d calls) only calls the transport / element code, non-panicking std primitives and the asserting constructor; no division or bounds assertion" % (len(reader_bodies), ncalls), not bad)
